@@ -38,7 +38,9 @@ CFG = {
         'a batch that names the same node id twice (Shard.UpdatePoints accepts a request listing a point twice) keeps the graph '
         'well-formed (c10_batch_preserves_wf covers it) but the classification reads the vector store before any update of the '
         'batch is applied, so "set the vector, then _delete it" leaves a node and a vector for a point whose field was removed '
-        '(c10_same_id_twice_refuted, model level; the generator never lists a point twice in one request)',
+        '(c10_same_id_twice_refuted; reproduced on the real shard with replays/C10_same_id_twice_repro.go.txt: the graph search then '
+        'returns, at distance 0, a point that no longer has the field -- a violation of C10 and C03 for such requests; the '
+        'generator never lists a point twice in one request)',
         'cached neighbour points (graphNode.neighbours) are assumed coherent with the vector store (true when every id changes at '
         'most once per batch)',
         'the link "wf_code = 0 on the decoded dump  <->  wf_b on the decoded graph" (clauses 141-145) is by reading: wf_code works '
@@ -83,8 +85,8 @@ LEVEL = {
             'in the batch, or present before and not removed; (c10_delete_preserves_wf) delete-only corollary; (c10_wf_reachable) '
             'every history from the empty index (first touch creates the entry node) runs without error and ends well-formed; '
             '(c10_alloc_fresh / _free / _init) the node id allocator hands out ids that are fresh, never 0 or the entry id, never '
-            'twice in use nor both in use and free. (c10_same_id_twice_refuted) model-level finding: a batch naming an id twice '
-            '(vector set, then removed) keeps a node for a point without the field. The REAL shard is tied to the invariant by '
+            'twice in use nor both in use and free. (c10_same_id_twice_refuted) finding predicted by the model and reproduced on the real shard: an update request '
+            'naming a point twice (vector set, then removed with _delete) keeps a graph node and vector for a point without the field. The REAL shard is tied to the invariant by '
             'replay: after every batch of seeded histories (all degree bounds / alphas / metrics / quantisers / store '
             'configurations of the rule) the dumped buckets are judged by the coded checker wf_code.',
     'design_ref': 'DESIGN.md 4.10',
